@@ -264,7 +264,7 @@ def _exc(r):
     return dotted(e) if e is not None else "re-raise"
 
 
-def _is_constant(prog, f, e):
+def _is_constant(prog, f, e, _depth=0):
     """True when the stored value cannot be a raw caller-supplied value: a constant, or an expression that does
     not pass a parameter of f through unchanged (bare parameter name, a local alias of one, or a tuple of them)."""
     if isinstance(e, ast.Constant):
@@ -293,7 +293,39 @@ def _is_constant(prog, f, e):
     v = prog.const(e, f.module)
     from sa.pysrc import Unknown
 
-    return not isinstance(v, Unknown)
+    if not isinstance(v, Unknown):
+        return True
+    # a bare parameter of a method / setter of an element class: it holds what the call sites in the library hand in; when every
+    # one of them (found by name) hands in a value that is not itself a raw caller-supplied value, neither is this one
+    if _depth < 2 and isinstance(e, ast.Name) and e.id in params and f.cls is not None and f.module.name.startswith("pptx.oxml."):
+        sites = []
+        is_setter = f.cls.setters.get(f.name) is f
+        ps = f.params[1:]
+        for g in prog.all_functions():
+            if g is f:
+                continue
+            for n in walk_own(g.node):
+                if is_setter and isinstance(n, ast.Assign):
+                    for t in n.targets:
+                        if isinstance(t, ast.Attribute) and t.attr == f.name:
+                            sites.append((g, n.value))
+                elif not is_setter and isinstance(n, ast.Call) and isinstance(n.func, ast.Attribute) and n.func.attr == f.name:
+                    if e.id in ps and ps.index(e.id) < len(n.args):
+                        sites.append((g, n.args[ps.index(e.id)]))
+                    else:
+                        kw = [k.value for k in n.keywords if k.arg == e.id]
+                        sites.append((g, kw[0] if kw else None))
+        def lib_made(a_):
+            """the direct result of a library method every definition of which is annotated to return str (`relate_to(...)`): made by
+            the library, not handed in by the caller"""
+            if not (isinstance(a_, ast.Call) and isinstance(a_.func, ast.Attribute)):
+                return False
+            defs = [c_.methods[a_.func.attr] for c_ in prog.all_classes() if a_.func.attr in c_.methods]
+            return bool(defs) and all(d_.node.returns is not None and ast.unparse(d_.node.returns).strip("'\"") == "str" for d_ in defs)
+
+        if sites and all(a_ is not None and (isinstance(a_, ast.Constant) or lib_made(a_)) for g_, a_ in sites):
+            return True
+    return False
 
 
 def _string_values(prog, f, e):
